@@ -9,7 +9,7 @@
       interpreter (so must be private to a path), and which fields may be shared.
    3. What a verdict may depend on: satisfiability, which is a property of a formula up
       to injective renaming of its symbols. *)
-From Coq Require Import ZArith List Bool String.
+From Coq Require Import String ZArith List Bool.
 Import ListNotations.
 Open Scope Z_scope.
 
